@@ -444,6 +444,16 @@ def seq_tuples(ck):
 
 
 def seq_fields(t, scfw=False):
+    """VERSION fields of (major, minor, patch, tweak[, extraversion]); tweak / extraversion None = key absent"""
+    M, m, p, tw = t[:4]
+    e = t[4] if len(t) > 4 else None
+    f = _seq_fields((M, m, p, tw), scfw)
+    if e is not None:
+        f["SYSCTRL_VERSION_EXTRA" if scfw else "EXTRAVERSION"] = e
+    return f
+
+
+def _seq_fields(t, scfw=False):
     M, m, p, tw = t
     if scfw:
         f = {"SYSCTRL_VERSION_MAJOR": str(M), "SYSCTRL_VERSION_MINOR": str(m), "SYSCTRL_VERSION_PATCH": str(p)}
@@ -464,6 +474,8 @@ def seqnum_stream(ck, tmp, stream="seqnum"):
         mres = ck.model([["ver_seqnum", scfw, str(t[0]), str(t[1]), str(t[2]), [] if t[3] is None else [str(t[3])]] for t in tuples])
         prev = None
         for t, mr in zip(tuples, mres):
+            # the order is on (major, minor, patch, tweak) alone: neighbours carry different pre-release labels
+            t = t + (ck.rng.choice([None, None, "", "rc", "rc.1", "beta", "alpha7", "dev"]),)
             ir = core.Check.impl(lambda: int(impl_defaults(tmp, seq_fields(t, scfw), via=ck.rng.choice(["file", "direct"]))[key]))
             if (mr[0], mr[1]) != (ir[0], ir[1]):
                 broke(ck, "GenVersion.default_seq_num", f"stream {stream} fields {seq_fields(t, scfw)}: model {mr} implementation {ir}")
@@ -591,10 +603,11 @@ def search(ck, tmp):
                     for t in (None, 0, 1, 127, 254, 255):
                         ts.append((M, m, p, t))
         ts.sort(key=lambda x: (x[0], x[1], x[2], x[3] or 0, x[3] is not None))
-        for scfw in (False, True):
+        for scfw, par in ((False, 0), (True, 0), (False, 1), (True, 1)):
             key = "SCFW_SEQ_NUM" if scfw else "DEFAULT_SEQ_NUM"
             prev = None
-            for t in ts:
+            for i, t in enumerate(ts):
+                t = t + (("rc" if (i + par) % 2 else None),)
                 ir = core.Check.impl(lambda: int(impl_defaults(tmp, seq_fields(t, scfw), via="direct")[key]))
                 cur = (t[0], t[1], t[2], t[3] or 0)
                 if ir[0] != "ok":
